@@ -33,6 +33,7 @@ import (
 	"pgregory.net/rapid"
 
 	"verifharness/internal/binfx"
+	"verifharness/internal/replfx"
 	"verifharness/internal/vt"
 )
 
@@ -46,18 +47,45 @@ type WireCase struct {
 	Txn        bool   `json:"txn,omitempty"`      // writers send a transaction with two puts instead of a put
 	Pairs      int    `json:"pairs,omitempty"`    // backup: number of pairs
 	NameLen    int    `json:"name_len,omitempty"` // backup: length of the table name
+	// backup: the restore is sent by a client that cuts the backup file into pieces of these sizes (round robin; 0 = an empty chunk)
+	// instead of the stock client's own chunking; TrailingEmpty appends an empty chunk after the last byte
+	Chunks        []int `json:"chunks,omitempty"`
+	TrailingEmpty bool  `json:"trailing_empty,omitempty"`
+}
+
+// genChunks: in half of the backup cases the restore stream is cut by the harness - "whatever the chunk size and wherever chunk boundaries fall"
+func genChunks(t *rapid.T, c WireCase) WireCase {
+	if rapid.Bool().Draw(t, "own-chunking") {
+		pool := []int{0, 1, 2, 7, 8, 9, 13, 64, 1000, 4096, 32 * 1024, 1 << 20, 3 << 20}
+		if c.Mode == "backup-big" {
+			pool = []int{0, 4096, 64 * 1024, 1<<20 - 1, 1 << 20, 3 << 20}
+		}
+		c.Chunks = rapid.SliceOfN(rapid.SampledFrom(pool), 1, 4).Draw(t, "chunks")
+		if c.Mode != "backup-small" {
+			// one-byte pieces of a large file are millions of messages
+			big := false
+			for _, n := range c.Chunks {
+				big = big || n >= 4096
+			}
+			if !big {
+				c.Chunks = append(c.Chunks, 64*1024)
+			}
+		}
+		c.TrailingEmpty = rapid.Bool().Draw(t, "trailing-empty")
+	}
+	return c
 }
 
 func genWireCase(t *rapid.T) WireCase {
 	switch rapid.IntRange(0, 9).Draw(t, "mode") {
 	case 0, 1:
-		return WireCase{Mode: "backup-small", Pairs: rapid.IntRange(0, 3).Draw(t, "pairs"), NameLen: rapid.SampledFrom([]int{6, 13, 20, 31, 60}).Draw(t, "namelen"), ValSize: rapid.SampledFrom([]int{0, 1, 8, 40, 150}).Draw(t, "vsize")}
+		return genChunks(t, WireCase{Mode: "backup-small", Pairs: rapid.IntRange(0, 3).Draw(t, "pairs"), NameLen: rapid.SampledFrom([]int{6, 13, 20, 31, 60}).Draw(t, "namelen"), ValSize: rapid.SampledFrom([]int{0, 1, 8, 40, 150}).Draw(t, "vsize")})
 	case 3:
 		// the backup directory is used again after the table shrank
-		return WireCase{Mode: "backup-rerun", Pairs: rapid.IntRange(3, 40).Draw(t, "pairs"), NameLen: 12, ValSize: rapid.SampledFrom([]int{8, 300, 5000}).Draw(t, "vsize")}
+		return genChunks(t, WireCase{Mode: "backup-rerun", Pairs: rapid.IntRange(3, 40).Draw(t, "pairs"), NameLen: 12, ValSize: rapid.SampledFrom([]int{8, 300, 5000}).Draw(t, "vsize")})
 	case 2:
 		// a snapshot file of several MiB that does not compress: full-size chunks
-		return WireCase{Mode: "backup-big", Pairs: rapid.IntRange(3, 5).Draw(t, "pairs"), NameLen: 12, ValSize: rapid.SampledFrom([]int{1 << 20, 2 << 20}).Draw(t, "vsize")}
+		return genChunks(t, WireCase{Mode: "backup-big", Pairs: rapid.IntRange(3, 5).Draw(t, "pairs"), NameLen: 12, ValSize: rapid.SampledFrom([]int{1 << 20, 2 << 20}).Draw(t, "vsize")})
 	}
 	c := WireCase{Mode: "writers",
 		Compressor: rapid.SampledFrom([]string{"", "", "", "gzip", "snappy", "zstd"}).Draw(t, "compressor"),
@@ -370,7 +398,27 @@ func runWireCase(c WireCase, o *vt.Obs) *vt.Failure {
 		_, _ = kv.DeleteRange(ctx, &regattapb.DeleteRangeRequest{Table: []byte(name), Key: []byte{0}, RangeEnd: []byte{0}})
 		_, _ = kv.Put(ctx, &regattapb.PutRequest{Table: []byte(name), Key: []byte("after-backup"), Value: []byte("x")})
 		cancel()
-		if err := b.Restore(); err != nil {
+		if len(c.Chunks) > 0 {
+			n, err := replfx.RestoreChunked(conn, dir, name, c.Chunks, c.TrailingEmpty, 2*time.Minute)
+			if err != nil {
+				if f := died(); f != nil || !p.Alive() {
+					return f
+				}
+				switch status.Code(err) {
+				case codes.DeadlineExceeded, codes.Canceled, codes.Unavailable:
+					vt.Inconclusive(fmt.Sprintf("C18/wire-restore-error: restore of table %q in own pieces: %v", name, err))
+					return nil
+				}
+				return vt.Failf(prop+"/wire-restore-error", 0, "restore of table %q, the backup file cut into pieces of %v bytes (%d chunks, trailing empty chunk %v), failed: %v\nserver log tail:\n%s", name, c.Chunks, n, c.TrailingEmpty, err, p.LogTail(1500))
+			}
+			o.Label("wire-restore-stream-cut-by-the-harness")
+			for _, sz := range c.Chunks {
+				if sz == 0 {
+					o.Label("wire-restore-stream-with-empty-chunks")
+					break
+				}
+			}
+		} else if err := b.Restore(); err != nil {
 			if f := died(); f != nil || !p.Alive() {
 				return f
 			}
